@@ -123,6 +123,39 @@ def _raw_value(col):
         return CIFColumn(CIFData(np.array(vals, dtype=str)), CIFData(np.array(mask, dtype=np.uint8)))
     if form == "col_data_listmask":
         return CIFColumn(CIFData(vals), mask)
+    # (round 5) the same containers around other NumPy representations of the same texts / mask values
+    longest = max(len(v) for v in vals)
+
+    def wide():       # item size wider than the longest text
+        return np.array(vals, dtype="U%d" % (longest + 7))
+
+    def view():       # strided view on a bigger array with longer texts in between
+        return np.array([x for v in vals for x in (v, v + "<padding>")], dtype=str)[::2]
+
+    def be():         # non-native byte order
+        a = np.array(vals, dtype=str)
+        return a.astype(a.dtype.newbyteorder(">"))
+
+    if form == "array_wide":
+        return wide()
+    if form == "array_view":
+        return view()
+    if form == "array_be":
+        return be()
+    if form == "data_wide":
+        return CIFData(wide())
+    if form == "data_view":
+        return CIFData(view())
+    if form == "col_array_wide":
+        return CIFColumn(wide())
+    if form == "col_data_be":
+        return CIFColumn(CIFData(be()))
+    if form == "col_array_mask_i64":
+        return CIFColumn(np.array(vals, dtype=str), np.array(mask, dtype=np.int64))
+    if form == "col_data_mask_i64":
+        return CIFColumn(CIFData(np.array(vals, dtype=str)), CIFData(np.array(mask, dtype=np.int64)))
+    if form == "col_data_wide_mask_i64":
+        return CIFColumn(CIFData(wide()), CIFData(np.array(mask, dtype=np.int64)))
     raise AssertionError(form)
 
 
@@ -176,10 +209,11 @@ def project_cif(g):
     return out
 
 
-def roundtrip_cif(F, raw=None, mode="ctor"):
+def roundtrip_cif(F, raw=None, mode="ctor", eq_out=None):
     """CIFFile.deserialize(file.serialize()), projected.  -> (obs, text, before)
     The file is built from F in the standard way, or from the raw columns `raw` (construction forms);
-    `before` is then the table that the built object holds (read from a copy), None otherwise."""
+    `before` is then the table that the built object holds (read from a copy), None otherwise.
+    eq_out: a list that receives the failed comparisons built == re-read (built_vs_reread)."""
     from biotite.structure.io.pdbx import CIFFile
 
     if raw:
@@ -191,10 +225,63 @@ def roundtrip_cif(F, raw=None, mode="ctor"):
     else:
         f, before = build_cif(F), None
     text = f.serialize()
+    if eq_out is not None:
+        try:
+            eq_out.extend(built_vs_reread(f, text))
+        except Exception as e:  # noqa: BLE001
+            eq_out.append("<%s>" % type(e).__name__)
     try:
         return {"oc": "ok", "f": project_cif(CIFFile.deserialize(text))}, text, before
     except Exception:  # noqa: BLE001  any exception of the reader is the outcome "err"
         return {"oc": "err", "f": []}, text, before
+
+
+def built_vs_reread(f, text):
+    """`==` between the constructed file f and what is read back from its text, at every level (file, block,
+    category, column, data, mask), both ways, with nothing and with everything of the re-read file accessed
+    before.  -> names of the comparisons that did not answer 'equal'."""
+    from biotite.structure.io.pdbx import CIFFile
+
+    bad = []
+
+    def want(name, a, b):
+        try:
+            ok = (a == b) is True and (b == a) is True and (a != b) is False
+        except Exception as e:  # noqa: BLE001
+            ok = False
+            name += ":" + type(e).__name__
+        if not ok and name not in bad:
+            bad.append(name)
+
+    for access in ("lazy", "read"):
+        g = CIFFile.deserialize(text)
+        if access == "read":
+            project_cif(g)
+        h = copy.deepcopy(f)
+        want("file:" + access, g, h)
+        for bn in h:
+            if bn not in g:
+                bad.append("block-missing")
+                continue
+            want("block:" + access, g[bn], h[bn])
+            for cn in h[bn]:
+                if cn not in g[bn]:
+                    bad.append("category-missing")
+                    continue
+                want("category:" + access, g[bn][cn], h[bn][cn])
+                for k in h[bn][cn]:
+                    if k not in g[bn][cn]:
+                        bad.append("column-missing")
+                        continue
+                    a, b = g[bn][cn][k], h[bn][cn][k]
+                    want("column:" + access, a, b)
+                    want("data:" + access, a.data, b.data)
+                    if a.mask is None or b.mask is None:
+                        if not (a.mask is None and b.mask is None):
+                            bad.append("mask-presence")
+                    else:
+                        want("mask:" + access, a.mask, b.mask)
+    return bad
 
 
 def _canon_file(f):
@@ -209,9 +296,10 @@ KB2FINDING = {"UnderscoreQuote": "C06-escape-underscore-quote",
               "TextFieldLine": "C06-text-field-lines",
               "BcifBlockDel": "C06-bcif-block-delitem",
               "StaleRowCount": "C06-stale-row-count",
-              "BcifLstripKey": "C06-bcif-lstrip-key"}
+              "BcifLstripKey": "C06-bcif-lstrip-key",
+              "ReplCut": "C06-as-array-replacement-cut"}
 KB_PRIORITY = ["ReservedAtLineStart", "SemiAtLineStart", "HashAtLineStart", "UnderscoreQuote",
-               "TextFieldLine", "BcifBlockDel", "StaleRowCount", "BcifLstripKey"]
+               "TextFieldLine", "BcifBlockDel", "StaleRowCount", "BcifLstripKey", "ReplCut"]
 
 
 def exec_text(item):
@@ -220,19 +308,22 @@ def exec_text(item):
 
     mism = []
     n = 0
+    neq = 0
     textdiff = 0
     kbmiss = 0
     for case in item["cases"]:
         F, kb, impl = case["F"], case["kb"], case["impl"]
         raw, how = case.get("raw") or None, case.get("how") or {}
         progress({"F": F, "how": how})
+        eqbad = [] if (raw and case.get("eqd")) else None
         try:
-            obs, text, before = roundtrip_cif(F, raw, how.get("mode", "ctor"))
+            obs, text, before = roundtrip_cif(F, raw, how.get("mode", "ctor"), eqbad)
         except Exception as e:  # noqa: BLE001  a table of the domain in a documented form is refused
             if not raw:
                 raise
             obs, text, before = {"oc": "err", "f": []}, "", [{"name": ["<%s>" % type(e).__name__], "cats": []}]
         n += 1
+        neq += eqbad is not None
         if "txt" in case and tok(text) != case["txt"]:
             textdiff += 1
         bad = []
@@ -241,18 +332,83 @@ def exec_text(item):
             bad.append("before")
         if _canon_file(obs) != _canon_file({"oc": "ok", "f": F}):
             bad.append("after")
+        # the specification demands built == re-read at every level (eqd = EqDemanded(raw), table returned)
+        if eqbad:
+            bad.append("eq")
         if not bad:
             if kb:
                 kbmiss += 1
             continue
-        rec = {"kind": "text", "kb": kb, "bad": bad,
+        rec = {"kind": "text", "kb": kb, "bad": bad, "eqbad": eqbad or [], "eqd": bool(case.get("eqd")),
                "known_shape": bad == ["after"] and bool(kb) and _canon_file(obs) == _canon_file(impl),
                "F": F, "expected": {"oc": "ok", "f": F}, "observed": obs,
                "model_prediction": impl, "text": text}
         if raw:
             rec.update({"how": how, "raw": raw, "before": before})
         mism.append(rec)
-    return {"mismatch": mism, "n": n, "textdiff": textdiff, "kbmiss": kbmiss}
+    return {"mismatch": mism, "n": n, "textdiff": textdiff, "kbmiss": kbmiss, "neq": neq}
+
+
+# --------------------------------------------------------------------------- read accessors: real side
+def _acc_call(col, opt):
+    """One accessor option of the specification (CifText.tla: IdealAccess) on a real column, projected."""
+    dt, mv = opt["dt"], opt["mv"]
+    try:
+        if dt == "item":
+            return [["s", tok(col.as_item())]]
+        if dt == "str":
+            arr = col.as_array(str, masked_value=untok(mv[0])) if mv else col.as_array(str)
+            if arr.dtype.kind != "U":
+                return ["<dtype %s>" % arr.dtype]
+            return [["s", tok(x)] for x in arr.tolist()]
+        arr = col.as_array(int if dt == "int" else float, masked_value=int(untok(mv[0])))
+        if arr.dtype.kind != ("i" if dt == "int" else "f"):
+            return ["<dtype %s>" % arr.dtype]
+        return [["n", int(x)] if float(x).is_integer() else ["n", repr(x)] for x in arr.tolist()]
+    except Exception as e:  # noqa: BLE001
+        return ["<%s>" % type(e).__name__]
+
+
+def _acc_file(cells):
+    return [{"name": ["b"], "cats": [{"name": ["c"], "cols": [
+        {"name": ["k"], "cells": cells}, {"name": ["l"], "cells": [{"m": 0, "v": ["x"]} for _ in cells]}]}]}]
+
+
+def acc_observe(cells, opt):
+    """The accessor on the column k that came back from a text round trip ("after") and on the column built
+    from the plain texts ("built"); "frame": the table the re-read file holds after the accessor calls."""
+    from biotite.structure.io.pdbx import CIFCategory, CIFFile
+
+    F = _acc_file(cells)
+    g = CIFFile.deserialize(build_cif(F).serialize())
+    col = g["b"]["c"]["k"]
+    after = _acc_call(col, opt)
+    again = _acc_call(col, opt)
+    texts = [untok(x["v"]) if x["m"] == 0 else (".", "?")[x["m"] - 1] for x in cells]
+    built = _acc_call(CIFCategory({"k": texts})["k"], opt)
+    return {"after": after, "again": again, "built": built, "frame": project_cif(g)}, F
+
+
+def exec_acc(item):
+    """S2 child: a group of enumerated (column, accessor option) cases."""
+    from harness.tlabind.pool import progress
+
+    mism = []
+    n = 0
+    for case in item["cases"]:
+        progress({"cells": case["cells"], "opt": case["opt"]})
+        obs, F = acc_observe(case["cells"], case["opt"])
+        n += 1
+        bad = [w for w in ("after", "again", "built") if obs[w] != case["exp"]]
+        if _canon_file(obs["frame"]) != _canon_file(F):
+            bad.append("frame")
+        if bad:
+            mism.append({"kind": "acc", "kb": case["kb"], "bad": bad, "cells": case["cells"], "opt": case["opt"],
+                         "known_shape": bool(case["kb"]) and "frame" not in bad
+                         and all(obs[w] in (case["exp"], case["impl"]) for w in ("after", "again", "built")),
+                         "expected": case["exp"], "observed": obs, "model_prediction": case["impl"]})
+    return {"mismatch": mism, "n": n,
+            "kbmiss": sum(1 for c in item["cases"] if c["kb"]) - sum(1 for m in mism if m["kb"])}
 
 
 # --------------------------------------------------------------------------- pairs of texts: real side
@@ -813,6 +969,17 @@ def _rand_name(rng, used, awkward):
         n = rng.randint(1, 5)
         v = [rng.choice(NAME_AWK) if (awkward and rng.random() < 0.3) else rng.choice("abckxyz019")
              for _ in range(n)]
+        if used and rng.random() < 0.35:
+            # a sibling related to a name that is already there: other letter case, a prefix, an extension
+            o = list(rng.choice(sorted(used)))
+            how = rng.choice(["case", "case", "prefix", "extend"])
+            if how == "case":
+                i = rng.randrange(len(o))
+                v = o[:i] + [o[i].swapcase() if len(o[i]) == 1 else o[i]] + o[i + 1:]
+            elif how == "prefix":
+                v = o[:max(1, len(o) - 1)]
+            else:
+                v = o + [rng.choice("abkxAB01")]
         if tuple(v) not in used:
             used.add(tuple(v))
             return v
@@ -847,8 +1014,10 @@ def _rand_file(rng, profile):
     return F
 
 
-NOMASK_FORMS = ["list", "array", "data", "col_list", "col_array", "col_data", "col_data_str"]
-MASK_FORMS = ["col_list_mask", "col_array_mask", "col_data_mask", "col_data_listmask"]
+NOMASK_FORMS = ["list", "array", "data", "col_list", "col_array", "col_data", "col_data_str",
+                "array_wide", "array_view", "array_be", "data_wide", "data_view", "col_array_wide", "col_data_be"]
+MASK_FORMS = ["col_list_mask", "col_array_mask", "col_data_mask", "col_data_listmask",
+              "col_array_mask_i64", "col_data_mask_i64", "col_data_wide_mask_i64"]
 
 
 def _rand_raw(rng, F):
@@ -1088,7 +1257,7 @@ def classify(mm):
     kb = mm.get("kb") or []
     if not kb:
         return None
-    if kind in ("text", "step", "key"):
+    if kind in ("text", "step", "key", "acc"):
         if not mm.get("known_shape"):
             return None
     elif kind in ("event-text", "event-map"):
@@ -1105,11 +1274,18 @@ def classify(mm):
 # --------------------------------------------------------------------------- replay
 def replay(record):
     kind = record.get("kind")
+    if kind == "acc":
+        obs, F = acc_observe(record["cells"], record["opt"])
+        return {"observed": obs, "expected": record["expected"],
+                "mismatch": any(obs[w] != record["expected"] for w in ("after", "again", "built"))
+                or _canon_file(obs["frame"]) != _canon_file(F)}
     if kind in ("text", "event-text"):
-        obs, text, before = roundtrip_cif(record["F"], record.get("raw"), (record.get("how") or {}).get("mode", "ctor"))
+        eqbad = [] if record.get("eqd") else None
+        obs, text, before = roundtrip_cif(record["F"], record.get("raw"), (record.get("how") or {}).get("mode", "ctor"),
+                                          eqbad)
         exp = {"oc": "ok", "f": record["F"]}
-        return {"text": text, "observed": obs, "before": before, "expected": exp,
-                "mismatch": _canon_file(obs) != _canon_file(exp)
+        return {"text": text, "observed": obs, "before": before, "expected": exp, "eqbad": eqbad,
+                "mismatch": _canon_file(obs) != _canon_file(exp) or bool(eqbad)
                 or (before is not None and _canon_file(before) != _canon_file(record["F"]))}
     if kind == "pair":
         got = pair_verdicts(record["left"], record["right"], record["level"], record["access"][0],
@@ -1185,6 +1361,13 @@ def run(ctx):
         "NoOperand otherwise); it is produced by the library's own writer and reader",
         "S2 replays every transition of the state graph once (one history per model state); histories that "
         "the model merges into one state are told apart only by the write/read observation after every call",
+        "read accessors (round 5): as_array(dtype, masked_value) with dtype str / int / float and as_item on the "
+        "re-read column; a text replacement is a str (None = the placeholders), a number replacement an int; "
+        "int / float only on columns whose present texts are digits and only with an explicit replacement "
+        "(no placeholder exists for numbers: nothing is demanded of masked rows then)",
+        "object equality built == re-read is demanded only where the raw column is the representation the reader "
+        "produces (ReprExact: no explicit mask, or an explicit mask masking >= 1 cell with the placeholder texts "
+        "under the masked cells) and the table is returned unchanged",
         "trusted: TLC, the TLA+ value parser, the token<->character map, copy.deepcopy for observation, numpy",
     ]
     ctx.cov["rule"] = ("non-trivial = text input that needs quoting or a text field or carries a mask / mapping "
@@ -1256,14 +1439,48 @@ def run(ctx):
             formseen[k] = formseen.get(k, 0) + 1
     ctx.cov["text_inputs_per_construction_form"] = dict(sorted(formseen.items()))
     need_forms = {"item", "list", "array", "data", "col_item", "col_list", "col_array", "col_data", "col_data_str",
-                  "col_item_mask", "col_list_mask", "col_array_mask", "col_data_mask", "col_data_listmask"}
+                  "col_item_mask", "col_list_mask", "col_array_mask", "col_data_mask", "col_data_listmask",
+                  "array_wide", "array_view", "array_be", "data_wide", "data_view", "col_array_wide", "col_data_be",
+                  "col_array_mask_i64", "col_data_mask_i64", "col_data_wide_mask_i64"}
     if need_forms - {k.split(":")[0] for k in formseen}:
         _vacuity(f"construction forms never enumerated: {sorted(need_forms - {k.split(':')[0] for k in formseen})}")
     if not any(s["how"]["form"] in ("data", "col_data") and any(v in (["dot"], ["qm"]) for b in s["raw"] for c in b["cats"]
                                                                  for col in c["cols"] for v in col["vals"]) for s in done):
         _vacuity("no enumerated CIFData column carries a '.' / '?' text without an explicit mask")
+    # equality built == re-read (MCText: eqd) must be demanded of forms with and without explicit mask
+    eqseen = {}
+    for s in done:
+        if s["eqd"]:
+            eqseen[s["how"]["form"]] = eqseen.get(s["how"]["form"], 0) + 1
+    ctx.cov["text_inputs_equality_built_vs_reread_demanded_per_form"] = dict(sorted(eqseen.items()))
+    for fo in ("array_wide", "array_view", "array_be", "data_wide", "col_data_be", "col_data_mask_i64", "list", "col_data"):
+        if fo not in eqseen:
+            _vacuity(f"equality between the built and the re-read file never demanded for the form {fo}")
+    # sibling names (MCText: SibInputs): two keys of one mapping that differ only in letter case / are prefixes,
+    # adjacent, at every level, one-row and looped
+    def _sib(names):
+        return any(a != b and (a.lower() == b.lower() or b.startswith(a))
+                   for i, a in enumerate(names[:-1]) for b in names[i + 1:i + 2])
+    sibseen = {"block": 0, "category:single": 0, "category:looped": 0, "column": 0}
+    for s in done:
+        F = s["inp"]
+        if _sib([untok(b["name"]) for b in F]):
+            sibseen["block"] += 1
+        for b in F:
+            cn = [untok(c["name"]) for c in b["cats"]]
+            for i in range(len(cn) - 1):
+                if cn[i] != cn[i + 1] and cn[i].lower() == cn[i + 1].lower():
+                    rows = {len(b["cats"][j]["cols"][0]["cells"]) for j in (i, i + 1)}
+                    sibseen["category:single" if rows == {1} else "category:looped"] += 1
+            for c in b["cats"]:
+                if _sib([untok(k["name"]) for k in c["cols"]]):
+                    sibseen["column"] += 1
+    ctx.cov["text_inputs_adjacent_sibling_names_case_or_prefix"] = sibseen
+    if not all(sibseen.values()):
+        _vacuity(f"sibling names differing only in case / by a prefix never adjacent at some level: {sibseen}")
     cases = [dict({"F": s["inp"], "kb": s["kb"], "impl": s["impl"]},
-                  **({} if s["how"]["form"] == "auto" else {"how": s["how"], "raw": s["raw"]})) for s in done]
+                  **({} if s["how"]["form"] == "auto" else {"how": s["how"], "raw": s["raw"], "eqd": s["eqd"]}))
+             for s in done]
     ctx.rng.shuffle(cases)
     items = [{"cases": c} for c in helpers.chunked(cases, 100)]
     results = helpers.run_pool(ctx, "harness.drivers.c06:exec_text", items, stage="S2-text")
@@ -1271,6 +1488,9 @@ def run(ctx):
     ctx.traces_validated += n
     ctx.evaluations += n
     ctx.cov["s2_text_roundtrips"] = n
+    ctx.cov["s2_text_built_vs_reread_equalities"] = sum(r.get("neq", 0) for r in results)
+    if ctx.cov["s2_text_built_vs_reread_equalities"] != sum(eqseen.values()):
+        _vacuity("equality built == re-read not executed for every case that demands it")
     ctx.cov["s2_text_kb_not_reproduced"] = sum(r.get("kbmiss", 0) for r in results)
     ctx.nontrivial += sum(1 for s in done if _nontrivial_text(s["inp"]))
     for c in cases[:2]:
@@ -1278,6 +1498,42 @@ def run(ctx):
     if ctx.cov["s2_text_kb_not_reproduced"]:
         ctx.note(f"{ctx.cov['s2_text_kb_not_reproduced']} enumerated files of a recorded-defect class were "
                  "returned unchanged by the real code (defect repaired?)")
+
+    # ================================================================= read accessors: S1 + S2
+    res, astates = helpers.dump_states(ctx, "MCAcc", "MCA.cfg" if quick else "MCA_thorough.cfg", stage="S1-acc",
+                                       workers=4, timeout=900)
+    adone = [s for s in astates if s["done"]]
+    if not adone or 2 * len(adone) != res.distinct:
+        raise RuntimeError(f"MCAcc: {len(adone)} evaluated states of {res.distinct}")
+    accseen = {}
+    for s in adone:
+        masked = any(c["m"] for c in s["cells"])
+        mv = s["opt"]["mv"]
+        k = "%s:%s:%s" % (s["opt"]["dt"], "none" if not mv else ("empty" if mv[0] == [] else
+                                                                "zero" if mv[0] == ["0"] else "other"),
+                          "masked" if masked else "present")
+        accseen[k] = accseen.get(k, 0) + 1
+    ctx.cov["accessor_cases"] = dict(sorted(accseen.items()))
+    for want in ("str:none:masked", "str:empty:masked", "str:zero:masked", "str:other:masked", "int:zero:masked",
+                 "float:zero:masked", "int:other:masked", "item:none:masked", "item:none:present", "str:empty:present"):
+        if want not in accseen:
+            _vacuity(f"read accessors: case never enumerated: {want}")
+    if not any(s["kb"] for s in adone) or sum(1 for s in adone if not s["kb"]) < len(adone) // 2:
+        _vacuity("read accessors: recorded-defect class ReplCut empty or dominating")
+    acases = [{k: s[k] for k in ("cells", "opt", "exp", "impl", "kb")} for s in adone]
+    ctx.rng.shuffle(acases)
+    ares = helpers.run_pool(ctx, "harness.drivers.c06:exec_acc", [{"cases": c} for c in helpers.chunked(acases, 100)],
+                            stage="S2-acc")
+    na = sum(r.get("n", 0) for r in ares)
+    ctx.traces_validated += na
+    ctx.evaluations += 3 * na
+    ctx.nontrivial += sum(1 for s in adone if any(c["m"] for c in s["cells"]))
+    ctx.cov["s2_accessor_cases"] = na
+    ctx.cov["s2_accessor_kb_not_reproduced"] = sum(r.get("kbmiss", 0) for r in ares)
+    if na != len(adone):
+        _vacuity(f"read accessors: {na} of {len(adone)} cases executed")
+    for c in acases[:1]:
+        ctx.sample({"s2_accessor_case": c})
 
     # ================================================================= key echo: S1 + S2
     res, kstates = helpers.dump_states(ctx, "MCKeys", "MCKeys.cfg", stage="S1-keys", workers=4, timeout=300)
@@ -1610,6 +1866,8 @@ def validate_traces(ctx, traces):
     ctx.sample({"s3_text_event": {k: traces[0][0][k] for k in ("F", "obs")}} if traces[0][0]["kind"] == "text"
                else {"s3_events": traces[0][:2]})
     dirty = set()
+    for v in vals("READDIFF"):
+        dirty.add(v[1] - 1)      # an event that is not judged: the trace is no material for the binding self-test
     for v in vals("MISMATCH", per_event=False):
         tid, l, verdict, kb = v[1], v[2], v[3], v[4]
         dirty.add(tid - 1)
@@ -1651,6 +1909,6 @@ def validate_traces(ctx, traces):
 
 MANIFEST = {
     "technique": "TLA+ specifications of the CIF text writer/reader (operator per function of cif.py, CIF 1.1 reference grammar) and of the lazy three-level containers (specs/C06), model-checked by TLC; every enumerated file round-tripped through the real CIFFile, every construction form of a column and every pair of renderings of a table executed, every transition of the container state graph replayed on real text and binary containers, recorded random files, pairs of randomly rendered texts and mapping histories re-computed by TLC",
-    "level_text": "TLC enumerates every file built from one awkward value (all strings of <=2 tokens over 18 character classes incl. the reserved words, <=3 over a reduced alphabet, and the feature product of the quoting decision: every leading character class x every subset of {blank, tab, apostrophe, double quote} in both orders) at 12 table positions (one-row, looped, first/other column, after a text field, next to mask cells, sandwiched between other categories and blocks) plus awkward block/category/column names, and checks that the code-shaped reader/writer model loses a table exactly in the recorded-defect classes, that a CIF 1.1 codec exists for every input, and that biotite's output is CIF 1.1 exactly outside the listed classes; each file is then written and read by the real CIFFile and compared cell by cell (values, order, masks). The container machine (2 flavours x 24 calls, keys b1,b2/c1,c2/k1,k2, parsed and serialised elements, cached row counts) is explored exhaustively to a bounded depth, Impl is checked to refine a plain dictionary, and every transition is replayed on real CIFFile and BinaryCIFFile objects (content, outcome, returned value; observation through a deep copy; after every call an independent copy is written and read back and compared with the specification's serialisability and content, so that caches left behind by the history show). Equality is called with literals and with operands derived from the container itself (copy, same mapping in reverse insertion order at the top or at every level, keys reversed over the values in place), each freshly built, written and read back with nothing accessed, or read back and fully accessed; columns are assigned as column objects and as data objects. Construction forms: every table of a family with mask states next to values that look like the mask strings is handed over in every documented form (str, list, ndarray, CIFData, CIFColumn of each, explicit masks as list / ndarray / CIFData with three kinds of text under the masked cells) through constructor dictionaries and through assignment; the table held before writing and the table read back are both compared with the specification's stored table. Pairs of texts: every file of a family is rendered in every style of a product (quoting preference x one-row category as loop x blank run x comment lines x one value per line; TLC certifies with the CIF 1.1 reference reader that each rendering denotes the table) and compared, parsed by the real reader, with renderings of the same table (biotite's own text, the opposite style, the same text, other insertion orders) and of tables that differ in one cell / mask state / row order / column name / other category / other block, at file, block and category level, for every pattern of prior access of the two operands (none, block, everything). Random files up to 4x4 with values up to 8 characters and mapping histories of 30-40 calls over 3 keys per level are recorded and re-computed by TLC event by event.",
-    "level_note": "Bounded: exhaustive only for one awkward value of <=3 tokens per file and container histories of <=4 (thorough 5) calls; pairs of texts: one awkward value per file, 24 (thorough 120) renderings, answers demanded only where the real reader and the reader model make the same of both texts; longer values, several awkward values per table and longer histories only through recorded runs. Characters are abstracted to the modelled classes; Unicode blanks / line separators other than space, tab and line feed are not modelled. Values containing a line break directly followed by ';' and present values equal to '.' or '?' are outside the domain (not expressible). Conformance of biotite's text to CIF 1.1 and of other writers' legal CIF to biotite's reader is reported as a diagnostic only. Five recorded defects are accepted only in their exact predicted shape. Trusted: TLC, the TLA+ value parser, the token<->character map, copy.deepcopy, numpy, msgpack.",
+    "level_text": "TLC enumerates every file built from one awkward value (all strings of <=2 tokens over 18 character classes incl. the reserved words, <=3 over a reduced alphabet, and the feature product of the quoting decision: every leading character class x every subset of {blank, tab, apostrophe, double quote} in both orders) at 12 table positions (one-row, looped, first/other column, after a text field, next to mask cells, sandwiched between other categories and blocks) plus awkward block/category/column names, and checks that the code-shaped reader/writer model loses a table exactly in the recorded-defect classes, that a CIF 1.1 codec exists for every input, and that biotite's output is CIF 1.1 exactly outside the listed classes; each file is then written and read by the real CIFFile and compared cell by cell (values, order, masks). The container machine (2 flavours x 24 calls, keys b1,b2/c1,c2/k1,k2, parsed and serialised elements, cached row counts) is explored exhaustively to a bounded depth, Impl is checked to refine a plain dictionary, and every transition is replayed on real CIFFile and BinaryCIFFile objects (content, outcome, returned value; observation through a deep copy; after every call an independent copy is written and read back and compared with the specification's serialisability and content, so that caches left behind by the history show). Equality is called with literals and with operands derived from the container itself (copy, same mapping in reverse insertion order at the top or at every level, keys reversed over the values in place), each freshly built, written and read back with nothing accessed, or read back and fully accessed; columns are assigned as column objects and as data objects. Construction forms: every table of a family with mask states next to values that look like the mask strings is handed over in every documented form (str, list, ndarray, CIFData, CIFColumn of each, explicit masks as list / ndarray / CIFData with three kinds of text under the masked cells) through constructor dictionaries and through assignment; the table held before writing and the table read back are both compared with the specification's stored table. Pairs of texts: every file of a family is rendered in every style of a product (quoting preference x one-row category as loop x blank run x comment lines x one value per line; TLC certifies with the CIF 1.1 reference reader that each rendering denotes the table) and compared, parsed by the real reader, with renderings of the same table (biotite's own text, the opposite style, the same text, other insertion orders) and of tables that differ in one cell / mask state / row order / column name / other category / other block, at file, block and category level, for every pattern of prior access of the two operands (none, block, everything). (Round 5) Sibling names: every ordered pair of distinct names over a letter and its capital (differing only in case, prefixes of one another) as two blocks / categories / columns, adjacent or apart, one-row and looped. The construction forms also vary the NumPy representation (wider item size, strided view, byte order, 64-bit mask integers), and wherever the raw columns are the representation the reader produces the constructed file must equal the re-read file at file / block / category / column / data / mask level, both ways, lazily and after full access. Read accessors: every column of <=2 (thorough 3) cells over texts, empty string and both mask states is read back and as_array (dtype str / int / float, masked_value None / empty / 0 / short / longer than the stored texts) and as_item are compared with the specification. Random files up to 4x4 with values up to 8 characters and mapping histories of 30-40 calls over 3 keys per level are recorded and re-computed by TLC event by event.",
+    "level_note": "Bounded: exhaustive only for one awkward value of <=3 tokens per file and container histories of <=4 (thorough 5) calls; pairs of texts: one awkward value per file, 24 (thorough 120) renderings, answers demanded only where the real reader and the reader model make the same of both texts; longer values, several awkward values per table and longer histories only through recorded runs. Characters are abstracted to the modelled classes; Unicode blanks / line separators other than space, tab and line feed are not modelled. Values containing a line break directly followed by ';' and present values equal to '.' or '?' are outside the domain (not expressible). Conformance of biotite's text to CIF 1.1 and of other writers' legal CIF to biotite's reader is reported as a diagnostic only. Recorded defects are accepted only in their exact predicted shape. Trusted: TLC, the TLA+ value parser, the token<->character map, copy.deepcopy, numpy, msgpack.",
 }
